@@ -195,6 +195,9 @@ pub fn run_stream(
                     for f in &ctx.analysis.features {
                         report.count(&format!("feature:{f}"));
                     }
+                    if report.progress_file.is_some() {
+                        report.announce(&format!("case {} ({} vertices)\n{}\nargs: {:?}", ctx.index, ctx.ds.vertices.len(), ctx.text, ctx.args));
+                    }
                     per_case(report, &ctx);
                 }
                 Compiled::Rejected(kind) => {
